@@ -1,6 +1,7 @@
 import ZV.Model.C18
 import ZV.Model.C18Dom
 import ZV.Model.C18Time
+import ZV.Model.C18Ext
 /-! line protocol for C18 (shared with C20):
     `c18 m <schema> <p=tagstring> <value>`   →  `ok <hex>` | `err`
     `c18 u <schema> <p=tagstring> <hex>`     →  `ok <value> <len(rest)>` | `err`
@@ -18,7 +19,10 @@ import ZV.Model.C18Time
     `c18 tc <unix> <off>`                     →  `y/m/d/h/mi/s`                   Time.Date() / Time.Clock() in a fixed zone
     `c18 td <y> <m> <d> <h> <mi> <s> <off>`   →  `<unix>`                         time.Date(…).Unix()
     `c18 tpc <u|g> <s|p> <hex>`               →  `ok <time>` | `err`              parseUTCTime / parseGeneralizedTime (strict / permissive)
-    `c18 tac <u|g> <time>`                    →  `ok <hex>` | `err`               appendUTCTime / appendGeneralizedTime -/
+    `c18 tac <u|g> <time>`                    →  `ok <hex>` | `err`               appendUTCTime / appendGeneralizedTime
+    extended embedding (`ZV.Model.C18Ext`; schema `S<n>` whose fields are `time` or old schemas, value `V<n>` of time tokens / old values):
+    `c18 tm|tm26 S<n>;… <p=tagstring> V<n>;…` →  `ok <hex>` | `err`               MarshalWithParams of a struct with time fields
+    `c18 xu S<n>;… <p=tagstring> <hex>`       →  `ok <value> <len(rest)>` | `err`  strict UnmarshalWithParams into such a struct -/
 namespace ZV.C18
 
 def dropPrefix (s : String) (n : Nat) : String := (s.drop n).toString
@@ -251,6 +255,95 @@ def handleTime (args : List String) : Option String :=
      | none => some "bad-op")
   | _ => none
 
+
+/-! ### structs with time fields (`ZV.Model.C18Ext`) -/
+open ZV.C18.Ext in
+def parseXFieldsTok : (n : Nat) → List String → Option (XFields × List String)
+  | 0, toks => some ([], toks)
+  | n + 1, ptok :: "time" :: rest =>
+    if ptok.startsWith "p=" then
+      match parseXFieldsTok n rest with
+      | some (fs, r) => some ((parseFieldParameters (dropPrefix ptok 2), .time) :: fs, r)
+      | none => none
+    else none
+  | n + 1, ptok :: rest =>
+    if ptok.startsWith "p=" then
+      match parseSchemaTok (2 * rest.length + 2) rest with
+      | some (s, r) =>
+        (match parseXFieldsTok n r with
+         | some (fs, r') => some ((parseFieldParameters (dropPrefix ptok 2), .base s) :: fs, r')
+         | none => none)
+      | none => none
+    else none
+  | _ + 1, [] => none
+
+open ZV.C18.Ext in
+def parseXSchema (s : String) : Option XFields :=
+  match s.splitOn ";" with
+  | tok :: rest =>
+    if tok.startsWith "S" then
+      match (dropPrefix tok 1).toNat? with
+      | some n => (match parseXFieldsTok n rest with | some (fs, []) => some fs | _ => none)
+      | none => none
+    else none
+  | [] => none
+
+open ZV.C18.Ext in
+def parseXValsTok : XFields → List String → Option (List XV × List String)
+  | [], toks => some ([], toks)
+  | (_, .time) :: fs, tok :: rest =>
+    (match parseTimeTok tok, parseXValsTok fs rest with
+     | some t, some (vs, r) => some (.time t :: vs, r)
+     | _, _ => none)
+  | (_, .base _) :: fs, toks =>
+    (match parseValTok (2 * toks.length + 2) toks with
+     | some (v, r) =>
+       (match parseXValsTok fs r with
+        | some (vs, r') => some (.base v :: vs, r')
+        | none => none)
+     | none => none)
+  | _ :: _, [] => none
+
+open ZV.C18.Ext in
+def parseXVals (fs : XFields) (s : String) : Option (List XV) :=
+  match s.splitOn ";" with
+  | tok :: rest =>
+    if tok == "V" ++ toString fs.length then
+      (match parseXValsTok fs rest with | some (vs, []) => some vs | _ => none)
+    else none
+  | [] => none
+
+open ZV.C18.Ext in
+def showXV : XV → List String
+  | .base v => showVal v
+  | .time t => [showTimeTok t]
+
+open ZV.C18.Ext in
+def showXVals (vs : List XV) : String :=
+  ";".intercalate (("V" ++ toString vs.length) :: (vs.map showXV).flatten)
+
+open ZV.C18.Ext in
+def handleExt (args : List String) : Option String :=
+  match args with
+  | [op, sc, p, a] =>
+    if op == "tm" || op == "tm26" then
+      (match parseXSchema sc, parseP p with
+       | some fs, some p =>
+         (match parseXVals fs a with
+          | some vs => some (showBytesRes (makeXStruct fs p vs))
+          | none => some "bad-op")
+       | _, _ => none)
+    else if op == "xu" then
+      (match parseXSchema sc, parseP p, ofHex a with
+       | some fs, some p, some bs =>
+         some (match parseXStruct false fs p bs with
+           | .ok (vs, rest) => "ok " ++ showXVals vs ++ " " ++ toString rest.length
+           | .err => "err"
+           | .panic => "panic")
+       | _, _, _ => some "bad-op")
+    else none
+  | _ => none
+
 def handleMain (args : List String) : String :=
   match args with
   | ["m", sc, p, v] =>
@@ -270,6 +363,9 @@ def handleMain (args : List String) : String :=
 def handle (args : List String) : String :=
   match handleTime args with
   | some r => r
-  | none => handleMain args
+  | none =>
+    match handleExt args with
+    | some r => r
+    | none => handleMain args
 
 end ZV.C18
